@@ -53,7 +53,7 @@ TEXT = "".join(l + "\n" for l in TEXT_LINES)
 
 
 def bounds(tier, seed):
-    return {"history_depth_in_process": 3 if tier == "quick" else 4, "history_depth_fresh_interpreters": 2,
+    return {"history_depth_in_process": 3 if tier == "quick" else 4, "history_depth_fresh_interpreters": "2 (thorough: all ordered pairs; quick: every third pair)",
             "events": len(EVENTS), "extra_hash_seeds": 8, "generated_salt_first_chars": 62}
 
 
@@ -129,6 +129,20 @@ def do_event(e):
     elif k == "words":
         w = sensitive_item_removal.SensitiveWordAnonymizer(list(e[1]), "s")
         w.anonymize("core seattle-core KeepMe " + " ".join(e[1]))
+    elif k == "main":
+        import os, shutil, tempfile
+        from netconan.netconan import main
+        d = tempfile.mkdtemp(prefix="nv-c13m-", dir="/dev/shm")
+        try:
+            os.makedirs(os.path.join(d, "in"))
+            with open(os.path.join(d, "in", "x.cfg"), "w") as f:
+                f.write(e[2])
+            try:
+                main(["-i", os.path.join(d, "in"), "-o", os.path.join(d, "out")] + list(e[1]))
+            except SystemExit:
+                pass
+        finally:
+            shutil.rmtree(d, ignore_errors=True)
     elif k == "rmi":
         rx = sensitive_item_removal.generate_default_sensitive_item_regexes()
         sensitive_item_removal.replace_matching_item(rx, e[1], {}, "s")
@@ -147,6 +161,10 @@ EVENTS = [
     ["ip", "saltForTest", ["10.0.0.0/8"]],
     ["words", ["seat", "keep"]],
     ["rmi", "password PlyRouter"],
+    ["main", ["-a", "-s", "cliSalt", "--preserve-addresses", "11.11.0.0/16,10.9.0.0/16", "-r", "seattle-core,PlyRouter"],
+     "ip address 10.1.2.3 11.11.5.5\nhostname seattle-core\n"],
+    ["main", ["-p", "-w", "sea,seattle,seat", "-n", "65001,12", "-s", "saltForTest", "--preserve-private-addresses", "-a"],
+     TEXT],
     # neighbours of the target configuration: same as the target except for one option
     ["fa", {"anon_pwd": True, "anon_ip": True, "salt": "saltForTest", "sensitive_words": ["sea", "seattle", "seat"],
             "as_numbers": ["65001", "12"], "reserved_words": ["seattle-core", "seat12"]}, TEXT],
@@ -304,7 +322,8 @@ class History(Part):
 
     def cases(self):
         fresh = [[]] + [[i] for i in range(len(EVENTS))] + [[i, j] for i in range(len(EVENTS))
-                                                               for j in range(len(EVENTS))]
+                                                               for j in range(len(EVENTS))
+                                                               if self.tier == "thorough" or (i + 2 * j) % 3 == 0]
         out = [{"mode": "inprocess"}]
         for i in range(0, len(fresh), 8):
             out.append({"mode": "fresh", "hists": fresh[i:i + 8]})
